@@ -326,7 +326,7 @@ func (p *Publish) EncodeTo(w io.Writer) (int, error) {
 		length += 2
 	}
 
-	if length > MaxMessageSize {
+	if length > MaxMessageSize-maxHeaderSize {
 		return 0, ErrMessageTooLarge
 	}
 
